@@ -7,6 +7,8 @@ mismatch, transform raises, merge raises, missing api_data key, empty api_data o
 x {run, stream_run}.  Observed: the API call raises, the exception carries the original message, within a wall-clock
 bound, and nothing is returned.  T2: failing SYNC traces are replayed through the model (chk_sync with the failing step
 as oracle).
+Protocol level (coq/Props/Worker.v over Model/Worker.v): real THREADING / MULTIPROCESSING runs with a fault at every crash point
+of the worker / orchestrator message protocol are observed, canonicalised and replayed as traces (harness/worker_proto.py).
 """
 from __future__ import annotations
 
@@ -22,6 +24,7 @@ from harness import daggen
 from harness.universe import (Universe, export_plan, kf_tfs_partial_requirement, kf_framework_roundtrip, kf_tfs_missing)
 from harness.orch import GateListener, run_observed, cq_plan, install, REC, uuid_to_sid
 from harness.c01 import gen_specs, cq_status
+from harness import worker_proto
 
 LEVEL = "proof"
 logging.disable(logging.CRITICAL)
@@ -213,6 +216,10 @@ def run(rep: vlib.Reporter, tier: str, seed: int) -> None:
                     "{run, stream_run}, a few MULTIPROCESSING runs, api_data-missing and declared-type faults. Each case is distinct "
                     "by (plan, fault, mode, entry point)")
     rep.sample({k: cases[0][k] for k in ("fault", "mode", "stream", "status", "wall", "begin", "raised")} if cases else {})
+    # ---- protocol level: histories of real THREADING / MULTIPROCESSING runs must be traces of Model/Worker.v; every disagreement
+    # (model / judge / observe) is a violation whose replay object is the case
+    if worker_proto.report(rep, "C08", tier, seed):
+        found = True
     if not pr.ok and not found:
         rep.finding("proof-broken", "Props/C08.v no longer checks",
                     {"failed_files": pr.failed_files, "forbidden": pr.forbidden, "log_tail": pr.log[-3000:]}, found_input=False)
@@ -220,6 +227,8 @@ def run(rep: vlib.Reporter, tier: str, seed: int) -> None:
 
 def replay(path: str) -> int:
     r = json.load(open(path))["replay"]
+    if r.get("kind") == "worker_proto":
+        return worker_proto.replay_main(r, "C08")
     res = run_fault(r["spec"], r["fault"], r["mode"], r["stream"])
     print(json.dumps({k: v for k, v in res.items() if k != "plan"}, indent=1, default=str))
     return 0
